@@ -276,4 +276,241 @@ theorem asciiLoop_gen : ∀ (f : Nat) (s s' : St), asciiLoop f s = .ok s' → By
                 simpa [enc1, hle] using this
               exact step _ [235, ch - 128 + 1] [ch] h rfl rfl rfl rfl rfl (by simp [St.push]) (by simp [St.push]) hY hchunk
 
+/-! ### the X12 encoder -/
+
+open DM.Spec.Build in
+theorem x12Enc_val (ch v : Nat) (h : x12Enc ch = .ok v) : x12Val ch = some v := by
+  unfold x12Enc at h
+  unfold DM.Spec.Build.x12Val
+  by_cases c1 : ch = 13
+  · rw [if_pos c1] at h ⊢; cases h; rfl
+  rw [if_neg c1] at h ⊢
+  by_cases c2 : ch = 42
+  · rw [if_pos c2] at h ⊢; cases h; rfl
+  rw [if_neg c2] at h ⊢
+  by_cases c3 : ch = 62
+  · rw [if_pos c3] at h ⊢; cases h; rfl
+  rw [if_neg c3] at h ⊢
+  by_cases c4 : ch = 32
+  · rw [if_pos c4] at h ⊢; cases h; rfl
+  rw [if_neg c4] at h ⊢
+  by_cases c5 : 48 ≤ ch ∧ ch ≤ 57
+  · rw [if_pos c5] at h ⊢; cases h; rfl
+  rw [if_neg c5] at h ⊢
+  by_cases c6 : 65 ≤ ch ∧ ch ≤ 90
+  · rw [if_pos c6] at h ⊢; cases h; rfl
+  rw [if_neg c6] at h
+  cases h
+
+open DM.Spec.Build in
+theorem writeThree_cw (s : St) (v1 v2 v3 : Nat) (h1 : v1 < 40) (h2 : v2 < 40) (h3 : v3 < 40) :
+    (writeThree s v1 v2 v3).cw = s.cw ++ packTriples [v1, v2, v3] ∧ (writeThree s v1 v2 v3).pos = s.pos ∧
+    (writeThree s v1 v2 v3).input = s.input ∧ (writeThree s v1 v2 v3).list = s.list ∧
+    (writeThree s v1 v2 v3).plan = s.plan ∧ (writeThree s v1 v2 v3).mode = s.mode ∧
+    (writeThree s v1 v2 v3).newMode = s.newMode := by
+  have : (1600 * v1 + 40 * v2 + v3 + 1) % 65536 = 1600 * v1 + 40 * v2 + v3 + 1 := by omega
+  simp [writeThree, St.push, packTriples, this]
+
+open DM.Spec.Build in
+theorem packTriples_append : ∀ (n : Nat) (v w : List Nat), v.length = 3 * n →
+    packTriples (v ++ w) = packTriples v ++ packTriples w := by
+  intro n
+  induction n with
+  | zero => intro v w h; have : v = [] := List.length_eq_zero_iff.mp (by omega); subst this; simp [packTriples]
+  | succ n ih =>
+    intro v w h
+    match v, h with
+    | a :: b :: c :: t, h =>
+      simp only [List.cons_append, packTriples]
+      rw [ih t w (by simp only [List.length_cons] at h; omega)]
+    | [], h => simp at h
+    | [_], h => simp at h; omega
+    | [_, _], h => simp at h; omega
+
+/-- result of the X12 triple loop -/
+structure X12Run (s s' : St) (sw : Bool) (n : Nat) : Prop where
+  pos : s'.pos = s.pos + 3 * n
+  le : s.pos ≤ s.input.length → s'.pos ≤ s.input.length
+  native : X12Native ((s.input.drop s.pos).take (3 * n))
+  cw : s'.cw = s.cw ++ DM.Spec.Build.packTriples (((s.input.drop s.pos).take (3 * n)).filterMap DM.Spec.Build.x12Val)
+  same : SameRun s s'
+  plan : ∀ e ∈ s'.plan, e ∈ s.plan
+  stay : sw = false → s'.charsLeft < 3 ∧ s'.mode = s.mode ∧ s'.newMode = s.newMode
+  switch : sw = true → s'.mode ≠ s.mode ∧ s'.hasMore = true ∧ (∃ p, (p, s'.mode) ∈ s.plan) ∧
+    s'.newMode = (match s'.mode.latch with | some l => some l | none => s.newMode)
+
+open DM.Spec.Build in
+theorem x12Loop_gen : ∀ (f : Nat) (s s' : St) (sw : Bool), x12Loop f s = .ok (s', sw) → ∃ n, X12Run s s' sw n := by
+  intro f
+  induction f with
+  | zero => intro s s' sw h; cases h
+  | succ f ih =>
+    intro s s' sw h
+    unfold x12Loop at h
+    by_cases hc : s.charsLeft ≥ 3
+    · rw [if_pos hc] at h
+      have hlt : s.pos + 2 < s.input.length := by simp only [St.charsLeft] at hc; omega
+      have hr : s.rest = s.input[s.pos] :: s.input[s.pos + 1] :: s.input[s.pos + 2] :: s.input.drop (s.pos + 3) := by
+        unfold St.rest
+        rw [List.drop_eq_getElem_cons (by omega), List.drop_eq_getElem_cons (by omega : s.pos + 1 < _),
+          List.drop_eq_getElem_cons (by omega : s.pos + 1 + 1 < _)]
+      rw [hr] at h
+      simp only [] at h
+      generalize s.input[s.pos] = a at *
+      generalize s.input[s.pos + 1] = b at *
+      generalize s.input[s.pos + 2] = c at *
+      cases h1 : x12Enc a with
+      | error e => rw [h1] at h; simp at h
+      | ok v1 =>
+        cases h2 : x12Enc b with
+        | error e => rw [h1, h2] at h; simp at h
+        | ok v2 =>
+          cases h3 : x12Enc c with
+          | error e => rw [h1, h2, h3] at h; simp at h
+          | ok v3 =>
+            rw [h1, h2, h3] at h
+            simp only [] at h
+            have hv1 := x12Enc_val a v1 h1
+            have hv2 := x12Enc_val b v2 h2
+            have hv3 := x12Enc_val c v3 h3
+            have l1 := (x12Val_lt a v1 hv1).1
+            have l2 := (x12Val_lt b v2 hv2).1
+            have l3 := (x12Val_lt c v3 hv3).1
+            obtain ⟨w1, w2, w3, w4, w5, w6, w7⟩ := writeThree_cw { s with pos := s.pos + 3 } v1 v2 v3 l1 l2 l3
+            have htake3 : (s.input.drop s.pos).take 3 = [a, b, c] := by
+              have : s.input.drop s.pos = a :: b :: c :: s.input.drop (s.pos + 3) := hr
+              rw [this]; rfl
+            have hnat3 : X12Native [a, b, c] := by
+              intro x hx
+              simp only [List.mem_cons, List.not_mem_nil, or_false] at hx
+              rcases hx with rfl | rfl | rfl
+              · rw [hv1]; rfl
+              · rw [hv2]; rfl
+              · rw [hv3]; rfl
+            have hfm3 : [a, b, c].filterMap x12Val = [v1, v2, v3] := by simp [hv1, hv2, hv3]
+            cases hm : (writeThree { s with pos := s.pos + 3 } v1 v2 v3).maybeSwitch with
+            | error e => rw [hm] at h; cases h
+            | ok r =>
+              obtain ⟨b', s3⟩ := r
+              rw [hm] at h
+              obtain ⟨m1, m2, m3, m4, m5, m6⟩ := maybeSwitch_spec _ s3 b' hm
+              cases b' with
+              | true =>
+                simp only [Except.ok.injEq, Prod.mk.injEq] at h
+                obtain ⟨hs, hsw⟩ := h
+                subst hs hsw
+                obtain ⟨t1, t2, t3, t4⟩ := m6 rfl
+                refine ⟨1, ⟨by rw [m2, w2], fun _ => by rw [m2, w2]; simp only []; omega, by rw [htake3]; exact hnat3,
+                  by rw [m3, w1, htake3, hfm3], ⟨m1.1.trans w3, m1.2.trans w4⟩, fun e he => by rw [← w5]; exact m4 e he,
+                  by simp, fun _ => ⟨by rw [← w6]; exact t1, ?_, ?_, by rw [t4, w7]⟩⟩⟩
+                · simpa [St.hasMore, m2, w2, m1.1, w3] using t2
+                · obtain ⟨p, hp⟩ := t3; exact ⟨p, by rw [← w5]; exact hp⟩
+              | false =>
+                simp only [] at h
+                obtain ⟨n, r⟩ := ih s3 s' sw h
+                obtain ⟨f1, f2⟩ := m5 rfl
+                have hin : s3.input = s.input := m1.1.trans w3
+                have hp3 : s3.pos = s.pos + 3 := by rw [m2, w2]
+                have hsplit : (s.input.drop s.pos).take (3 * (n + 1)) =
+                    [a, b, c] ++ (s3.input.drop s3.pos).take (3 * n) := by
+                  rw [hin, hp3, ← htake3]
+                  have : 3 * (n + 1) = 3 + 3 * n := by omega
+                  rw [this, List.take_add, List.drop_drop]
+                refine ⟨n + 1, ⟨by rw [r.pos, hp3]; omega, fun hle => by rw [← hin]; exact r.le (by rw [hin, hp3]; omega), ?_, ?_,
+                  ⟨r.same.1.trans hin, r.same.2.trans (m1.2.trans w4)⟩,
+                  fun e he => by rw [← w5]; exact m4 e (r.plan e he),
+                  fun hs => by obtain ⟨a1, a2, a3⟩ := r.stay hs; exact ⟨a1, by rw [a2, f1, w6], by rw [a3, f2, w7]⟩,
+                  fun hs => ?_⟩⟩
+                · rw [hsplit]
+                  intro x hx
+                  rcases List.mem_append.mp hx with hx | hx
+                  · exact hnat3 x hx
+                  · exact r.native x hx
+                · rw [r.cw, m3, w1, hsplit, List.filterMap_append, hfm3,
+                    packTriples_append 1 [v1, v2, v3] _ rfl, List.append_assoc]
+                · obtain ⟨a1, a2, a3, a4⟩ := r.switch hs
+                  refine ⟨by rw [← w6, ← f1]; exact a1, a2, ?_, by rw [a4, f2, w7]⟩
+                  obtain ⟨p, hp⟩ := a3
+                  exact ⟨p, by rw [← w5]; exact m4 _ hp⟩
+    · rw [if_neg hc] at h
+      simp only [Except.ok.injEq, Prod.mk.injEq] at h
+      obtain ⟨hs, hsw⟩ := h
+      subst hs hsw
+      exact ⟨0, ⟨by simp, fun h => h, by intro x hx; simp at hx, by simp [packTriples], SameRun.refl s, fun e he => he,
+        fun _ => ⟨by omega, rfl, rfl⟩, by simp⟩⟩
+
+/-! ### stepping the encoder's main loop -/
+
+/-- the state `encodeMode` is called on: a pending latch is written first -/
+def latched (s : St) : St :=
+  match s.newMode with
+  | some nm => { s with newMode := none }.push nm
+  | none => s
+
+theorem mainLoop_end (f : Nat) (s : St) (k : Nat) (h : s.hasMore = false) : Enc.mainLoop (f + 1) s k = .ok s := by
+  rw [Enc.mainLoop]; simp [h]
+
+theorem mainLoop_step (f : Nat) (s sEnd : St) (k : Nat) (h : Enc.mainLoop (f + 1) s k = .ok sEnd) (hm : s.hasMore = true) :
+    ∃ s' k', encodeMode (latched s) = .ok s' ∧ Enc.mainLoop f s' k' = .ok sEnd := by
+  rw [Enc.mainLoop] at h
+  simp only [hm, Bool.not_true, Bool.false_eq_true, ↓reduceIte] at h
+  have key : ∀ (sl : St), (match encodeMode sl with
+      | .error e => .error e
+      | .ok s' =>
+        if s'.cw.length < sl.cw.length then .error (.panic "codewords.len() - len")
+        else if s'.cw.length - sl.cw.length ≤ 1 then
+          if k + 1 > 5 then .error (.panic "no progress in encoder") else Enc.mainLoop f s' (k + 1)
+        else Enc.mainLoop f s' 0) = Except.ok sEnd →
+      ∃ s' k', encodeMode sl = .ok s' ∧ Enc.mainLoop f s' k' = .ok sEnd := by
+    intro sl h
+    cases he : encodeMode sl with
+    | error e => rw [he] at h; cases h
+    | ok s' =>
+      rw [he] at h
+      simp only [] at h
+      split at h
+      · cases h
+      · split at h
+        · split at h
+          · cases h
+          · exact ⟨s', _, rfl, h⟩
+        · exact ⟨s', _, rfl, h⟩
+  unfold latched
+  cases hn : s.newMode with
+  | none => rw [hn] at h; exact key s h
+  | some nm => rw [hn] at h; exact key _ h
+
+/-- exact fit: `size_left(k) = 0` means the symbol chosen for `len + k` codewords has exactly that capacity -/
+theorem sizeLeft_zero (s : St) (k : Nat) (h : s.sizeLeft k = some 0) :
+    ∃ sym, firstBigEnough s.list (s.cw.length + k) = some sym ∧ dataCw sym = s.cw.length + k := by
+  unfold St.sizeLeft at h
+  cases hf : firstBigEnough s.list (s.cw.length + k) with
+  | none => rw [hf] at h; cases h
+  | some sym =>
+    rw [hf] at h
+    simp only [Option.some.injEq] at h
+    refine ⟨sym, rfl, ?_⟩
+    unfold firstBigEnough at hf
+    have := List.find?_some hf
+    simp only [decide_eq_true_eq] at this
+    omega
+
+theorem asciiEnc_length : ∀ (n : Nat) (l : List Nat), l.length ≤ n → (asciiEnc l).length = asciiSize l := by
+  intro n
+  induction n with
+  | zero => intro l h; have : l = [] := List.length_eq_zero_iff.mp (by omega); subst this; rfl
+  | succ n ih =>
+    intro l h
+    match l, h with
+    | [], _ => rfl
+    | [a], _ => simp only [asciiEnc, asciiSize, enc1]; split <;> rfl
+    | a :: b :: t, h =>
+      simp only [asciiEnc, asciiSize]
+      split
+      · simp only [List.length_cons]
+        rw [ih t (by simp only [List.length_cons] at h; omega)]; omega
+      · simp only [List.length_append, enc1]
+        rw [ih (b :: t) (by simp only [List.length_cons] at h ⊢; omega)]
+        split <;> simp <;> omega
+
 end DM.Lemmas.EncRT
